@@ -97,6 +97,9 @@ func (s *Sim) fill(res *Result) {
 	res.TapeOver = s.tape.Over
 	res.Overflow = s.overflow
 	res.NonBaton = s.nonBaton
+	if s.nStall > 0 {
+		res.Faults["cpu_stall"] += s.nStall
+	}
 	if s.KeepLog {
 		res.Trace = s.traceLocked(0)
 	}
